@@ -49,7 +49,16 @@ func (*StringCastingMangler) Unmangle(sf reflect.StructField, vs []FieldValueTup
 		castTo = sf.Type.Elem()
 	}
 
-	return parse.String(str, castTo)
+	parsed, parseErr := parse.String(str, castTo)
+	if parseErr != nil {
+		return parsed, parseErr
+	}
+	// parse.String returns values of the predeclared types; convert to the
+	// field's own type so user-defined types (type Level uint8) work.
+	if parsed.Type() != sf.Type && parsed.Type().ConvertibleTo(sf.Type) {
+		parsed = parsed.Convert(sf.Type)
+	}
+	return parsed, nil
 }
 
 // ShouldRecurse always returns true in order to walk nested structs.
